@@ -729,7 +729,34 @@ def check_built_entries(ctx, case):
     ctx.note_case(len(entries) >= 2, ["built-entries:" + ("tuned" if tuned else "plain")])
 
 
-CHECKS = {"built_entries": check_built_entries, "fanout": check_fanout, "returned": check_returned_objects, "history": check_history, "fft": check_fft, "find_notes": check_find_notes, "args": check_args, "siblings": check_siblings, "copies": check_copies}
+def check_scale_object(ctx, case):
+    """one scale object asked several questions in a drawn order answers each like a fresh object does: no answer depends on
+    what the same object was asked before (directions, degrees, lists, len, str in any order)"""
+    from mingus.core import scales
+    cls_name, tonic, octs, script = case
+    cls = getattr(scales, cls_name)
+    qs = [lambda o: o.ascending(), lambda o: o.descending(), lambda o: o.degree(1, "a"), lambda o: o.degree(1, "d"), lambda o: o.degree(6, "a"),
+          lambda o: o.degree(6, "d"), lambda o: o.degree(2), lambda o: o.degree(7, "d"), lambda o: len(o), lambda o: str(o), lambda o: o.degree(3, "d"),
+          lambda o: o.degree(3, "a")]
+
+    def ask(o, k):
+        try:
+            return ["ok", qs[k % len(qs)](o)]
+        except Exception as e:  # noqa - the same exception class is the same answer
+            return ["raises", type(e).__name__]
+    try:
+        obj = cls(tonic, octs)
+    except Exception:  # noqa - C05's subject
+        return ctx.note_case(False, [])
+    for i, k in enumerate(script):
+        got = ask(obj, k)
+        want = ask(cls(tonic, octs), k)
+        ctx.check(got == want, "history/scale-object-remembers-earlier-questions",
+                  lambda: "%s(%r, %d): question %d asked after %r gives %r, a fresh object gives %r" % (cls_name, tonic, octs, k % len(qs), [x % len(qs) for x in script[:i]], got, want))
+    ctx.note_case(len(script) >= 2, ["scale-object:" + cls_name])
+
+
+CHECKS = {"scale_object": check_scale_object, "built_entries": check_built_entries, "fanout": check_fanout, "returned": check_returned_objects, "history": check_history, "fft": check_fft, "find_notes": check_find_notes, "args": check_args, "siblings": check_siblings, "copies": check_copies}
 
 
 # ---- generators ----------------------------------------------------------------------------------------
@@ -814,6 +841,10 @@ def sub_instances(ctx, shard, n):
     ctx.given("copies", check_copies, cps, 400 if ctx.quick else 5000)
     ctx.enumerate("fanout", check_fanout, [[k, how, text, reps, victim, edit] for k in (2, 3) for how in ("add_note", "plus") for text in ("C", "F#-3")
                                            for reps in (1, 5) for victim in range(k) for edit in range(8)])
+    SC = [("MelodicMinor", "A"), ("MinorNeapolitan", "E"), ("Chromatic", "C"), ("Major", "Bb"), ("Dorian", "D"), ("HarmonicMinor", "F#"), ("WholeTone", "C"),
+          ("Bachian", "G"), ("Octatonic", "C")]
+    ctx.enumerate("scale_object", check_scale_object, [[c, t, o, sc] for c, t in SC for o in (1, 2)
+                                                       for sc in ([4, 5], [5, 4], [2, 3, 5], [0, 5, 1, 4], [3, 2, 7, 6, 10, 11], [8, 9, 5, 4, 1, 0])])
     ctx.enumerate("built_entries", check_built_entries, [[ch, d, tuned, victim, edit] for ch in (["C", "G", "C"], ["Am", "Am"], ["C", None, "C", "F", "C"], [["E7", "E7"], "Am"])
                                                          for d in (1, 2) for tuned in (False, True) for victim in (0, 1, 2) for edit in range(5)])
     ret = st.tuples(st.integers(0, 75), st.integers(0, 11), st.lists(st.integers(0, 40), min_size=1, max_size=5)).map(list)
